@@ -73,6 +73,12 @@ def main(argv=None):
 
         with prefer_pure_python_imports():
             spec = H.resolve(args.module, args.func)
+        # CrossHair's weakref patch runs a full gc.collect() on every weakref.ref() call (for determinism); the proxy stack
+        # built at import makes each one scan the whole import-time heap.  Freezing that heap keeps the collections (and
+        # their determinism for everything allocated on a path) but makes them scan only what the paths allocate.
+        import gc
+        gc.collect()
+        gc.freeze()
         fn = spec.fn
         try:
             filename = inspect.getsourcefile(fn) or "<harness>"
